@@ -781,7 +781,13 @@ pub async fn acquire_key(base_url: &Uri) -> Result<Key> {
             response.status(),
         )));
     }
-    hyper_client::read_response_body(response).await
+    // the body carries the key material: never hand the caller an error text that echoes it
+    hyper_client::read_response_body(response).await.map_err(|_| {
+        Error::Key(KeyErrorType::SendKeyRequest(
+            format!("{}", KeyAction::Acquire),
+            "the response body is not a valid key document".to_string(),
+        ))
+    })
 }
 
 pub async fn attest_key(base_url: &Uri, key: &Key) -> Result<()> {
